@@ -296,6 +296,11 @@ def apply_real(w, op, nfit):
         opt.set_factor_boundary(op[1], letters()[op[2]])
     elif name == 'set_prior':
         opt.set_prior(op[1], make_prior(op[2], prior_letter(op[1], op[2])))
+    elif name == 'external_set':
+        # the parameter is written from outside the optimiser (through the owner's public setter), as user code or
+        # another component may do between two update_model calls
+        obj = tm if op[1] in tm.fittingParameters else obs
+        obj.fittingParameters[op[1]][3](external_value(op[1], op[2]))
     else:
         raise ValueError(op)
 
@@ -318,9 +323,17 @@ def apply_ref(s, op, log_flags=None):
     elif name == 'set_prior':
         kind = op[2]
         s.set_prior(op[1], ref.explicit_prior(PRIOR_KINDS[kind], prior_letter(op[1], kind)))
+    elif name == 'external_set':
+        v = external_value(op[1], op[2])
+        s.p[op[1]]['value'] = v
+        return [(op[1], v)]
     else:
         raise ValueError(op)
     return []
+
+
+def external_value(p, letter):
+    return NOMINAL[p] * {'x1': 1.37, 'x2': 0.61}[letter]
 
 
 def reported_log_flags(opt):
@@ -656,6 +669,10 @@ def run_phase(ctx, name, ops, depth, roots=([],), max_states=None):
 
 def explore(ctx):
     quick = ctx.tier != 'thorough'
+    # writes from outside the optimiser interleaved with (repeated, identical) update_model vectors
+    ext = [['enable_fit', 'T'], ['compile_params'], ['update_model', 'v1'], ['update_model', 'v2'],
+           ['external_set', 'planet_radius', 'x1'], ['external_set', 'T', 'x1'], ['external_set', 'T', 'x2']]
+    run_phase(ctx, 'external', ext, 5 if quick else 7)
     if quick:
         # four parameters (default-fit linear, linear, log, observation-side) and all three derived
         # parameters, every operation, depth 3
